@@ -119,16 +119,16 @@ fn selector_json(tb: &TB, style: IdStyle) -> Value {
         }
         "Set" => {
             v["@type"] = json!("DataSetSelector");
-            put(&mut v, "dataset", ref_json(&tb.a, 'S', style));
+            put(&mut v, "annotationset", ref_json(&tb.a, 'S', style));
         }
         "Key" => {
             v["@type"] = json!("DataKeySelector");
-            put(&mut v, "dataset", ref_json(&tb.a, 'S', style));
+            put(&mut v, "annotationset", ref_json(&tb.a, 'S', style));
             put(&mut v, "key", ref_json(&tb.b, 'K', style));
         }
         "Data" => {
             v["@type"] = json!("AnnotationDataSelector");
-            put(&mut v, "dataset", ref_json(&tb.a, 'S', style));
+            put(&mut v, "annotationset", ref_json(&tb.a, 'S', style));
             put(&mut v, "data", ref_json(&tb.b, 'D', style));
         }
         kind => {
